@@ -140,7 +140,10 @@ fn gen_desc<S: Sut>(w: &World<S>, g: &mut G, node: usize, tag: u32) -> Desc {
                 2 => rng.next() as u32,
                 _ => 0,
             };
-            Desc::MWrite { v: 100 + tag as u64, mask }
+            // nodes are content addressed: two replicas writing the same value on the same children
+            // produce the same node through two distinct ops
+            let v = if cfg.dup_values && rng.chance(1, 2) { 1 + rng.below(2) as u64 } else { 100 + tag as u64 };
+            Desc::MWrite { v, mask }
         }
     }
 }
